@@ -161,3 +161,23 @@ Theorem C20_mapor_nonvacuous :
   vle {[1 := 1]} (mclock x1) = false /\ mdeferred x1 <> ∅.
 Proof. exact mapor_eq_example. Qed.
 Print Assumptions C20_mapor_nonvacuous.
+
+(** Map<K, Orswot> whose keys are never removed: equal knowledge gives Leibniz-equal complete states under per-actor delivery,
+    duplicates and merges; the map keeps no pending key remove, and the nested set under every key is exactly the Orswot
+    specification of the ops learned under that key (so the Orswot no-residue theorem applies to it) (proofs/MapOrswotNK.v) *)
+From Crdt Require Import model.Orswot model.Map spec.System spec.OrswotSpec spec.OrswotSystem spec.MapSpec spec.MapSystem spec.MapOrswotSpec proofs.MapOrswotNK proofs.MapOrswotNKCor.
+Theorem C20_mapor_nk_state_eq (H : list (oprec (mop oop))) :
+  mohist_ok_nk H -> forall (s1 s2 : cmap orswot) (K : gset nat), moreach_nk H s1 K -> moreach_nk H s2 K -> s1 = s2.
+Proof. exact (mapor_converge_nk H). Qed.
+Print Assumptions C20_mapor_nk_state_eq.
+
+Theorem C20_mapor_nk_components (H : list (oprec (mop oop))) :
+  mohist_ok_nk H -> forall (s : cmap orswot) (K : gset nat) (k : N), moreach_nk H s K ->
+  let os := known_ops H K in
+  mclock s = mspec_clock os /\ mdeferred s = ∅ /\
+  (k ∈ dom (mentries s) <-> exists d o, MUp d k o ∈ os) /\
+  (forall e, mentries s !! k = Some e ->
+        eclock e = dots_clock (kdots os k) /\ eval e = ospec_of (mo_proj os k)) /\
+  mo_state_entries s k = ospec_entries (mo_proj os k).
+Proof. exact (mapor_components_nk H). Qed.
+Print Assumptions C20_mapor_nk_components.
